@@ -158,6 +158,16 @@ Theorem C20_audit_every_peer : forall thr peers es a,
 Proof. exact audit_every_peer. Qed.
 Print Assumptions C20_audit_every_peer.
 
+(** (g) the agent's wiring: the session layer reports events with factory.peer_addr, which is the
+    configured text unchanged ([factory_peer_addr], compared with the real BGPPeering on every run);
+    such an event is in the share of the log init() registered, and that log exists *)
+Theorem C20_agent_wiring : forall a cb ok sz k,
+  proj (lower a) (HEv (factory_peer_addr a) cb ok sz) = [Ev cb ok sz] /\
+  proj (lower a) (HCrash (factory_peer_addr a) cb ok sz k) = [Crash cb ok sz k] /\
+  hget (lower (factory_peer_addr a)) (hstart cfg_fixed [a]) = Some (start_on cfg_fixed []).
+Proof. exact agent_wiring. Qed.
+Print Assumptions C20_agent_wiring.
+
 (** "2001:DB8::1", "2001:db8::1" and "10.0.0.2" registered: two logs; the two spellings share one
     (three records, next number 4, across a rotation and a restart), the other peer has its own *)
 Example C20_peers_nonvacuous :
